@@ -39,6 +39,20 @@ def record_case(cid, T, mods, seed, shuffle=True, origin='tlc'):
         leaves = trees.terminals(root)
         if len(leaves) >= 2 and seed % 8 == 1:
             trees.delete_terminal(root, leaves[rnd.randrange(len(leaves))])
+        elif seed % 8 == 5:
+            # the tree is kept while another (tiny) treebank is opened and read, and only then gets a new node
+            # (add_topnode): node identity must not depend on what else was read in the meantime
+            import io as _io2
+            import contextlib as _cl2
+            fd2, fn2 = tempfile.mkstemp(prefix='vf_nv_', suffix='.brackets')
+            try:
+                with os.fdopen(fd2, 'w') as f2:
+                    f2.write('(S (T a))\n')
+                with _cl2.redirect_stdout(_io2.StringIO()), _cl2.redirect_stderr(_io2.StringIO()):
+                    list(mods['treeinput'].brackets(fn2, 'utf-8'))
+            finally:
+                os.unlink(fn2)
+            root = mods['transform'].add_topnode(root)
     dmp = treeio.Dumper(atoms)
     G = dmp.dump(root)
     objs = list(dmp.objs)
@@ -82,7 +96,8 @@ def record_case(cid, T, mods, seed, shuffle=True, origin='tlc'):
     def three():
         import io as _io
         gd = ta.gap_degree(root)
-        r2 = treeio.build(T, mods, atoms, None)
+        # (child lists stored in any order: the three notions are about the tree, not about its storage)
+        r2 = treeio.build(T, mods, atoms, random.Random(seed + 1) if shuffle else None)
         r2.data['sid'] = 1
         try:
             to.brackets(r2, _io.StringIO())
@@ -90,7 +105,7 @@ def record_case(cid, T, mods, seed, shuffle=True, origin='tlc'):
         except ValueError:
             refuses = 'T'
         g_, l_ = {}, {}
-        mods['grammar'].extract(treeio.build(T, mods, atoms, None), g_, l_)
+        mods['grammar'].extract(treeio.build(T, mods, atoms, random.Random(seed + 2) if shuffle else None), g_, l_)
         return {'gd': gd, 'refuses': refuses, 'cf': 'T' if mods['grammaranalysis'].is_contextfree(g_) else 'F'}
     if not via_reader:
         ev('three_notions', three)
